@@ -3,7 +3,7 @@
 import json, os, sys
 sid, prop, opts, breaks, needs, det = sys.argv[1:7]
 d = os.path.join(os.path.dirname(os.path.dirname(os.path.abspath(__file__))), "seeded", sid)
-res = [l.strip() for l in open(os.path.join(d, "confirm.log")) if l.startswith("RESULT")]
+res = [l.strip() for l in open(os.path.join(d, "confirm.log"), errors="replace") if l.startswith("RESULT")]
 if not res:
     sys.exit("no RESULT line in confirm.log")
 opts = "" if opts == "-" else opts
